@@ -214,22 +214,35 @@ func blockedState(s string) bool {
 // quiesce waits until every other goroutine of this package is blocked, with an identical fingerprint in two
 // samples `gap` apart. It returns false if that does not happen within the deadline.
 func quiesce(gap, deadline time.Duration) bool {
-	end := time.Now().Add(deadline)
-	var prev string
-	for time.Now().Before(end) {
-		st, _ := goroutineStates()
-		ok := true
-		keys := make([]string, 0, len(st))
-		for id, s := range st {
-			if !blockedState(s) {
-				ok = false
-			}
-			keys = append(keys, id+"="+s)
+	_, ok := quiesceFP(gap, deadline)
+	return ok
+}
+
+// quietFP takes one sample: the fingerprint (ids and wait states of the package's goroutines) and whether all are blocked.
+func quietFP() (string, bool) {
+	st, _ := goroutineStates()
+	ok := true
+	keys := make([]string, 0, len(st))
+	for id, s := range st {
+		if !blockedState(s) {
+			ok = false
 		}
-		sort.Strings(keys)
-		fp := strings.Join(keys, ";")
+		keys = append(keys, id+"="+s)
+	}
+	sort.Strings(keys)
+	return strings.Join(keys, ";"), ok
+}
+
+// quiesceFP is quiesce returning the fingerprint of the quiescent state, so that a caller can check with quietFP, after it
+// has read its observation, that nothing has moved in between (an observation read while goroutines were still moving is
+// not an observation of a quiescent state; seen once in some hundred runs of C14K1 on an overloaded machine).
+func quiesceFP(gap, deadline time.Duration) (string, bool) {
+	end := time.Now().Add(deadline)
+	prev := "\x00"
+	for time.Now().Before(end) {
+		fp, ok := quietFP()
 		if ok && fp == prev {
-			return true
+			return fp, true
 		}
 		if ok {
 			prev = fp
@@ -238,7 +251,7 @@ func quiesce(gap, deadline time.Duration) bool {
 		}
 		time.Sleep(gap)
 	}
-	return false
+	return "", false
 }
 
 func libGoroutineCount() int {
